@@ -465,6 +465,20 @@ func pnAssert(c *Ctx, s pnSite) (bool, string) {
 				}
 				return check(t.X, depth+1)
 			}
+			// one result of a multi-result helper
+			if tcall, isCall := x.Tuple.(*ssa.Call); isCall {
+				callee := tcall.Call.StaticCallee()
+				if callee != nil && c.InModule(callee) && callee.Blocks != nil {
+					for _, b := range callee.Blocks {
+						if ret, ok := b.Instrs[len(b.Instrs)-1].(*ssa.Return); ok && x.Index < len(ret.Results) {
+							if ok, why := check(ret.Results[x.Index], depth+1); !ok {
+								return false, why
+							}
+						}
+					}
+					return true, ""
+				}
+			}
 		case *ssa.TypeAssert:
 			if impl(x.X.Type()) {
 				return true, ""
